@@ -16,7 +16,9 @@ ASSUMPTIONS = ["R7: dict keyed by to_str(key).upper(); pop(missing) returns None
                "Component == mapping is only required not to raise (C17 vs C20 disagree)"]
 SOFT_S = {"quick": 10, "thorough": 200}
 
-KEYS = ["a", "A", "b", "B", "Ab", "aB", "AB", b"a", b"B", "ß", "ss", "SS", "ı", "i", "x-y", "X-Y"]
+KEYS = ["a", "A", "b", "B", "Ab", "aB", "AB", b"a", b"B", "ß", "ss", "SS", "ı", "i", "x-y", "X-Y",
+        # names that are in some class's canonical_order (Event, Calendar, Timezone, vRecur), in any case
+        "summary", "DTSTART", "exdate", "Rdate", "uid", "version", "PRODID", "method", "tzid", "freq", "UNTIL", "wkst", "byday", "sequence", "dtend"]
 SMALL_KEYS = ["a", "A", "b"]
 CLASSES = ["CaselessDict", "Parameters", "Component", "Event", "Calendar", "vRecur"]
 
@@ -43,7 +45,7 @@ def small_ops():
 
 def rand_op(rng):
     k = rng.choice(KEYS)
-    v = rng.randrange(100)
+    v = rng.choice((rng.randrange(100), rng.randrange(100), None))
     r = rng.randrange(24)
     pairs = tuple((rng.choice(KEYS), rng.randrange(100)) for _ in range(rng.randrange(0, 4)))
     if r < 4:
@@ -264,6 +266,17 @@ def quiescent(ctx, d, m, cls, where):
         if d == differ or not (d != differ):
             ctx.fail("eq-mapping-different", observed=(where, "equal to a mapping with an extra key"), expected=False)
             return False
+        if want:
+            # same size, one key renamed (its value kept, and also with value None): must be unequal, both ways
+            k0, v0 = want[-1]
+            for newval in (v0, None):
+                ren = dict(want[:-1])
+                ren[k0 + "-RENAMED"] = newval
+                other_c = CaselessDict(ren)
+                for o in (ren, other_c):
+                    if d == o or o == d or not (d != o):
+                        ctx.fail("eq-mapping-different", observed=(where, "equal to a mapping of the same size with a renamed key", k0, newval), expected=False)
+                        return False
     else:
         try:
             d == dict(want)
